@@ -8,11 +8,15 @@ package main
 import (
 	"fmt"
 	"os"
+	"time"
 
 	"verif/harness/hx"
 )
 
 func main() {
+	// the drivers run in a local time zone that is not UTC (+02:00), as most deployments do: anything that
+	// formats or compares wall-clock time without converting to UTC shows up
+	time.Local = time.FixedZone("VERIF+2", 2*3600)
 	if len(os.Args) < 2 {
 		fmt.Fprintln(os.Stderr, "usage: harness <command> [args]")
 		os.Exit(2)
